@@ -115,7 +115,7 @@ def lake_build(targets):
 def parse_lean_errors(log):
     """[(file, line, msg)] from lake / lean output"""
     errs = []
-    for m in re.finditer(r"^(?:error: )?(\S+\.lean):(\d+):(\d+): error(?:\([^)]*\))?: (.*)$", log, flags=re.M):
+    for m in re.finditer(r"^(?:error: )?(\S+\.lean):(\d+):(\d+):(?: error(?:\([^)]*\))?:)? (.*)$", log, flags=re.M):
         errs.append((m.group(1), int(m.group(2)), m.group(4)))
     return errs
 
